@@ -9,12 +9,13 @@ set -u
 STRIDE="${1:-3}"; OFFSET="${2:-0}"
 HERE="$(cd "$(dirname "$0")/.." && pwd)"
 export GOFLAGS=-mod=mod GOPROXY=off GOSUMDB=off GOTOOLCHAIN=local
-export GOCACHE=/var/tmp/verif-mut-gocache
+export GOCACHE=/var/tmp/verif-mut-gocache-$STRIDE-$OFFSET
+BIN=/var/tmp/verif-mutate-bin-$STRIDE-$OFFSET
 WT="$(mktemp -d /var/tmp/mutwt-XXXXXX)"; rmdir "$WT"
 OUT="$(mktemp -d /var/tmp/mutout-XXXXXX)"
 git -C /repo worktree add -q --detach "$WT" HEAD || exit 2
-trap 'git -C /repo worktree remove --force "$WT" 2>/dev/null; rm -rf "$WT" "$OUT" "$GOCACHE" /var/tmp/verif-mutate-bin' EXIT
-(cd "$HERE/tools/mutate" && go build -o /var/tmp/verif-mutate-bin .) || exit 2
+trap 'git -C /repo worktree remove --force "$WT" 2>/dev/null; rm -rf "$WT" "$OUT" "$GOCACHE" $BIN' EXIT
+(cd "$HERE/tools/mutate" && go build -o $BIN .) || exit 2
 LEDGER="C03 C04 C05 C07 C02 C01 C08 C09 C10 C12 C06 C13 C11"
 declare -A CHECKS=(
  [internal/interpreter/interpreter.go]="$LEDGER"
@@ -40,12 +41,13 @@ FILES="${MUT_FILES:-internal/interpreter/reconciler.go internal/interpreter/batc
 count=0
 printf "file\tindex\tline\tmutation\tverdict\tdetail\n"
 for f in $FILES; do
-  n=$(/var/tmp/verif-mutate-bin -file "/repo/$f" -list | wc -l)
+  git -C "$WT" show "HEAD:$f" > "$OUT/pristine.go"
+  n=$($BIN -file "$OUT/pristine.go" -list | wc -l)
   for ((i=OFFSET; i<n; i+=STRIDE)); do
-    desc=$(/var/tmp/verif-mutate-bin -file "/repo/$f" -list | sed -n "$((i+1))p")
+    desc=$($BIN -file "$OUT/pristine.go" -list | sed -n "$((i+1))p")
     line=$(echo "$desc" | cut -f2); what=$(echo "$desc" | cut -f3)
     git -C "$WT" checkout -q -- . 
-    /var/tmp/verif-mutate-bin -file "/repo/$f" -apply $i -out "$WT/$f" || continue
+    $BIN -file "$OUT/pristine.go" -apply $i -out "$WT/$f" || continue
     count=$((count+1))
     if [ $((count % 60)) -eq 0 ]; then go clean -cache >/dev/null 2>&1; fi
     if ! (cd "$WT" && go build ./... ) >/dev/null 2>&1; then printf "%s\t%d\t%s\t%s\tbuild-fails\t\n" "$f" $i "$line" "$what"; continue; fi
